@@ -107,3 +107,23 @@ func vBodyStr(b []byte) (string, []byte) {
 func vStatusReply(id []byte, code uint32) (fxp, []byte) {
 	return sshFxpStatus, append(append([]byte{}, id[:4]...), byte(code>>24), byte(code>>16), byte(code>>8), byte(code), 0, 0, 0, 0, 0, 0, 0, 0)
 }
+
+// vPipeReader is the client end of a server->client byte stream fed by a channel
+type vPipeReader struct {
+	ch  chan []byte
+	cur []byte
+}
+
+func (r *vPipeReader) Read(p []byte) (int, error) {
+	if len(r.cur) == 0 {
+		b, ok := <-r.ch
+		if !ok {
+			return 0, io.EOF
+		}
+		r.cur = b
+	}
+	n := copy(p, r.cur)
+	r.cur = r.cur[n:]
+	return n, nil
+}
+
